@@ -12,6 +12,10 @@
 From Verif Require Import Lib.Base Lib.Json Model.KeyId Model.UAgent Model.Shim Model.ShimCheck Model.C07Check
   Model.C09Check Generated.ShimGen.
 
+(** The frame bound the property states: 16 MiB.  The oracle uses this constant, never a regenerated one: a
+    translator that no longer finds the constant must not change what the oracle accepts. *)
+Definition spec_max_frame : N := 16777216%N.
+
 Section Oracle.
   Variable info : N -> option cinfo.
 
@@ -103,13 +107,13 @@ Section Oracle.
           end
       | Forward raw len rlen =>
           listN_eqb (o_mem post) (o_mem pre) && listN_eqb (o_ids post) (o_ids pre) &&
-          if (max_frame <? len)%N then
+          if (spec_max_frame <? len)%N then
             is_err_reply r && listN_eqb (o_rawlog post) (o_rawlog pre) && Nat.eqb (o_reqno post) (o_reqno pre)
           else
             match r with
             | RRaw x => N.eqb x raw && listN_eqb (o_rawlog post) (o_rawlog pre ++ [raw])
             | RRawInjected _ => pend (o_reqno pre)
-            | RErr _ => negb healthy || (max_frame <? rlen)%N
+            | RErr _ => negb healthy || (spec_max_frame <? rlen)%N
             | _ => false
             end
       | _ => true
